@@ -188,6 +188,17 @@ class Source:
             if self.masked[e:e + 1] == ';':
                 e += 1
             return m.start(), e
+        if kw == 'macrocall':
+            # `MACRO!( [pub] NAME = ... );` at item level, e.g. declare_tag_set!(pub special_tag = ...);
+            mac, nm = name.split(':')
+            m = re.search(r'\b%s!\s*\(\s*(?:pub\s+)?%s\s*=' % (re.escape(mac), re.escape(nm)), self.masked)
+            if not m:
+                raise ExtractError('%s: %s!(%s = ..) not found' % (self.path, mac, nm))
+            i = self.masked.index('(', m.start())
+            e = match_delim(self.masked, i) + 1
+            if self.masked[e:e + 1] == ';':
+                e += 1
+            return m.start(), e
         m = re.search(r'\b%s\s+%s\b' % (kw, re.escape(name)), self.masked)
         if not m:
             raise ExtractError('%s: %s %s not found' % (self.path, kw, name))
